@@ -140,8 +140,8 @@ def register(m):  # noqa: F811 - third batch: collectors, clones, oracle, id gen
     _prev2(m)
     # C05: handlers written differently but with the same meaning
     m("C05", "rf-collect-pow-guard-first", CQ,
-      "    if is_any_dimension(exp_factor) or dimsys_SI.is_dimensionless(exp_dim):\n        return (base_factor**exp_factor, base_dim**exp_factor)\n\n    raise ValueError(f\"Dimension of '{expr.exp}' is {exp_dim}, but it should be dimensionless\")",
-      "    if not (is_any_dimension(exp_factor) or dimsys_SI.is_dimensionless(exp_dim)):\n        raise ValueError(f\"Dimension of '{expr.exp}' is {exp_dim}, but it should be dimensionless\")\n\n    return (base_factor**exp_factor, base_dim**exp_factor)", "SILENT")
+      "    if is_any_dimension(exp_factor) or dimsys_SI.is_dimensionless(exp_dim):\n        # NOTE: float exponent is kept in the value, but dimensions with float and rational\n        # exponents do not compare as equivalent, eg `length**2.0` and `length**2`\n        dim_exp = nsimplify(exp_factor, rational=True) if exp_factor.is_Float else exp_factor\n        return (base_factor**exp_factor, base_dim**dim_exp)\n\n    raise ValueError(f\"Dimension of '{expr.exp}' is {exp_dim}, but it should be dimensionless\")",
+      "    if not (is_any_dimension(exp_factor) or dimsys_SI.is_dimensionless(exp_dim)):\n        raise ValueError(f\"Dimension of '{expr.exp}' is {exp_dim}, but it should be dimensionless\")\n\n    dim_exp = nsimplify(exp_factor, rational=True) if exp_factor.is_Float else exp_factor\n    return (base_factor**exp_factor, base_dim**dim_exp)", "SILENT")
     m("C05", "rf-collect-abs-named-child", CQ,
       "    arg_factor, arg_dim = collect_quantity_factor_and_dimension(expr.args[0])\n    return (Abs(arg_factor), arg_dim)",
       "    child = expr.args[0]\n    arg_factor, arg_dim = collect_quantity_factor_and_dimension(child)\n    return (Abs(arg_factor), arg_dim)", "SILENT")
